@@ -1,10 +1,96 @@
 (* C16 - Converters built from configuration layers are consistent or rejected.
-   Statements only; proofs live in Proofs/BuilderProofs.v and Proofs/BuilderExamples.v.
-   [build cfg_new] is the model of ConverterBuilder::new + add_units_file* + finish as the code
-   stands now (with the repair aa52d4d), [build cfg_old] the code before it. *)
+   Statements only; proofs live in Proofs/BuilderProofs.v (invariants, induction over files, units,
+   extend entries) and Proofs/BuilderExamples.v (closed computations).
+   [build cfg_new files] is the model (Model/Builder.v) of ConverterBuilder::new, add_units_file for
+   each file, finish, as the code stands now (with the repair /repo aa52d4d); [build cfg_old] is the
+   code before the repair.  The theorems hold for every list of files and every iteration order of
+   the hash maps (Extend::units, Fractions::unit/quantity are given as lists in iteration order);
+   f64 is modelled by exact rationals, so "finite ratios" is built into the type. *)
 From CL Require Import Base.StrLemmas Model.Builder Model.BuilderSpec Proofs.BuilderProofs Proofs.BuilderExamples.
 From CL Require Import Gen.UnitsTomlFile Gen.UnitsSpanishFile Gen.UnitsLive.
 
+(* building never panics: a converter or a ConverterBuilderError *)
+Theorem C16_total : forall files, exists r, build cfg_new files = Done r.
+Proof. exact build_total. Qed.
+Print Assumptions C16_total.
+
+(* every name, symbol and alias of every unit (the SI-prefixed forms are names and symbols of
+   units of their own) resolves to exactly that unit; the index holds nothing else; every unit has
+   a key, no blank key, no key twice; no key is shared by two units *)
+Theorem C16_index_consistent :
+  forall files c, build cfg_new files = Done (ROk c) ->
+    index_consistent (c_units c) (c_index c) /\ keys_well_formed (c_units c) /\ no_shared_key (c_units c).
+Proof.
+  intros files c H. destruct (build_ok files c H) as (H1 & H2 & H3 & _). split; [exact H1|]. split; assumption.
+Qed.
+Print Assumptions C16_index_consistent.
+
+(* each best list is non-empty, starts with threshold 1 at its smallest unit, holds units of its
+   own physical quantity in non-decreasing size, and the threshold of a unit is 1 of it
+   converted to the smallest unit *)
+Theorem C16_best_ok :
+  forall files c q, build cfg_new files = Done (ROk c) -> best_store_ok (c_units c) q (c_best c q).
+Proof. intros files c q H. destruct (build_ok files c H) as (_ & _ & _ & H4). exact (H4 q). Qed.
+Print Assumptions C16_best_ok.
+
+(* ... which for offset-free units is the quotient of the ratios *)
+Theorem C16_best_threshold_offset_free :
+  forall u b, (difference u == 0)%Q -> (difference b == 0)%Q -> (threshold_of u b == ratio u / ratio b)%Q.
+Proof. exact threshold_offset_free. Qed.
+Print Assumptions C16_best_threshold_offset_free.
+
+(* layers.  Proved: the default system is the last given (Metric when none); the best list of a
+   quantity is built from the list given last for it (same store shape, and its ids are exactly
+   the units the names resolve to in the final index); the all / metric / imperial fractions
+   settings are the last given, defaults filled in and clamped.
+   Not proved in general, hence [_partial]: what an extend block does to a unit
+   ([C16_precedence_extend_statement]; the rule for one entry is [C16_precedence_edit_rule]) and the
+   unit / quantity fractions tables. *)
+Definition C16_precedence_extend_statement : Prop :=
+  forall files c, build cfg_new files = Done (ROk c) -> single_extend_ok files c.
+
+Theorem C16_precedence_partial :
+  forall files c, build cfg_new files = Done (ROk c) ->
+    Some (c_default c) = last_given uf_default_system files (Some Metric) /\
+    (forall q, exists b, last_best q files = Some b /\ best_from c q b) /\
+    cf_all (c_fractions c) = defined (last_set fr_all (fractions_layers files) None) /\
+    cf_metric (c_fractions c) = defined (last_set fr_metric (fractions_layers files) None) /\
+    cf_imperial (c_fractions c) = defined (last_set fr_imperial (fractions_layers files) None).
+Proof. exact build_layers. Qed.
+Print Assumptions C16_precedence_partial.
+
+(* the SI prefix tables in force when finish expands the units are the layered ones
+   (Before prepends, After appends, Override replaces) *)
+Theorem C16_precedence_si_tables :
+  forall files st, add_files bstate0 files = ROk st ->
+    (si_prefixes (b_si st), si_symbol_prefixes (b_si st)) = final_tables files.
+Proof. exact add_files_tables. Qed.
+Print Assumptions C16_precedence_si_tables.
+
+(* one extend entry edits a unit exactly as the precedence rule says *)
+Theorem C16_precedence_edit_rule : forall u e p, edit_unit u e p = layered_unit u e p.
+Proof. exact edit_unit_layered. Qed.
+Print Assumptions C16_precedence_edit_rule.
+
+(* SI forms: stated, not proved in general (the monitor of checks/c16.py evaluates it on the
+   implementation's converter for every generated configuration; [C16_si_forms_shipped] below is
+   the computation on the shipped files) *)
+Definition C16_si_forms_statement : Prop :=
+  forall files c, build cfg_new files = Done (ROk c) -> si_forms_ok files c.
+
+(* the shipped configuration: units.toml builds the converter Converter::default() holds (dump of
+   the running implementation, regenerated on every run), and units.toml + units/spanish.toml the
+   converter the implementation builds from them *)
+Theorem C16_default_is_shipped : builds_to cfg_new [units_toml] live_default = true.
+Proof. exact default_is_shipped. Qed.
+Print Assumptions C16_default_is_shipped.
+
+Theorem C16_spanish_layer_is_live : builds_to cfg_new [units_toml; units_spanish] live_spanish = true.
+Proof. exact spanish_layer_is_live. Qed.
+Print Assumptions C16_spanish_layer_is_live.
+
+(* the defect repaired by /repo aa52d4d, kept as theorems about the old code: a best list with a
+   unit of another physical quantity reached the assert_eq! of convert_f64, or was accepted *)
 Theorem C16_total_refuted_before_fix : exists files, build cfg_old files = Panic site_convert_assert.
 Proof. exact total_refuted_before_fix. Qed.
 Print Assumptions C16_total_refuted_before_fix.
@@ -14,10 +100,15 @@ Theorem C16_best_ok_refuted_before_fix :
 Proof. exact best_ok_refuted_before_fix. Qed.
 Print Assumptions C16_best_ok_refuted_before_fix.
 
-Theorem C16_default_is_shipped : builds_to cfg_new [units_toml] live_default = true.
-Proof. exact default_is_shipped. Qed.
-Print Assumptions C16_default_is_shipped.
+(* the hypothesis [build cfg_new files = Done (ROk c)] is satisfiable, and the two witnesses are
+   build errors now *)
+Example C16_hypothesis_satisfiable : exists files c, build cfg_new files = Done (ROk c).
+Proof. exact good_builds. Qed.
 
-Theorem C16_spanish_layer_is_live : builds_to cfg_new [units_toml; units_spanish] live_spanish = true.
-Proof. exact spanish_layer_is_live. Qed.
-Print Assumptions C16_spanish_layer_is_live.
+Example C16_witnesses_rejected_now :
+  build cfg_new w_panic = Done (RErr (EBestUnitQuantity s_ml Mass)) /\
+  build cfg_new w_accept = Done (RErr (EBestUnitQuantity s_ml Mass)).
+Proof. split; [exact w_panic_now | exact w_accept_now]. Qed.
+
+Example C16_si_forms_shipped : shipped_ok [units_toml] = true /\ shipped_ok [units_toml; units_spanish] = true.
+Proof. exact si_forms_shipped. Qed.
